@@ -280,6 +280,32 @@ def run(ctx, rep):
                       'status byte handling in %s: %s (the on-disk dirty bit can disagree with what the session '
                       'believes, or mount-time status bits can be lost)' % (W.name, pr))
 
+    # ---------------- Q7 the only silent way out of the status writer is "the byte already has that value"
+    sguards = [g for g in latch_guards(W) if g[0] == 'status']
+    if sguards:
+        kind_, differ_edges, sw_ = sguards[0]
+        equal_edges = {(sw_, x) for x in W.succ(sw_)} - set(differ_edges)
+        # ... or another test of the cached status (`if dirty && current.dirty { return Ok(()) }`): the exit is still decided
+        # by what the session knows to be on the disk, not by something else (an option, a counter)
+        from rules.c13 import STATUS_CELL, CACHE_READS
+        dW = Deps(W)
+        for bi_ in W.reachable():
+            tt_ = W.blocks[bi_]['term']
+            if tt_['k'] != 'switch' or bi_ == sw_:
+                continue
+            toks_ = dW.of_operand(tt_['discr'])
+            if ('field', STATUS_CELL) in toks_ and any(('call', c) in toks_ for c in CACHE_READS):
+                equal_edges |= {(bi_, x) for x in W.succ(bi_)}
+        writes_ = {b2 for b2, tt in W.calls() if eff.fn_reaches_dev(W.name, b2, 'W')}
+        reach_ = W.reach_from([0], cut_blocks=set(error_blocks(W)) | writes_, cut_edges=equal_edges)
+        rets = [bi for bi in reach_ if W.blocks[bi]['term']['k'] == 'return']
+        ok7 = not rets and bool(writes_)
+        rep.oblige('Q7', W.name, ok=ok7, nontrivial=True, sample={'fn': W.name, 'device_writes': len(writes_)})
+        if not ok7:
+            rep.violation('Q7', vkey('Q7', W.name, 'silent-exit', ''), W.loc(W.span),
+                          '%s can return Ok without writing the status byte on a path other than "the byte already has the wanted '
+                          'value": a structural change is then not bracketed by the dirty bit on the disk' % W.name)
+
     # ---------------- Q4 offsets
     consts = set()
     seek_calls = [(b, t) for b, t in W.calls() if (t.get('callee') or '').endswith('io::Seek::seek')]
